@@ -184,6 +184,57 @@ func checkC09(c *Ctx) {
 	} else {
 		c.Ok("C09.R1", key+":evict-only-after-live", p.Pos(nfn.Pos()), "no eviction in the nonce function")
 	}
+	// every removal from the nonce map, anywhere in the nonce cache's methods, is behind the strictly-after-expiry
+	// edge for the entry removed (a size cap or any other eviction of a live entry re-opens the replay window)
+	nDel := 0
+	for _, f := range p.FuncsInPkg("ingress") {
+		if f.Signature.Recv() == nil || namedName(f.Signature.Recv().Type()) != namedName(nfn.Signature.Recv().Type()) {
+			continue
+		}
+		for _, b := range f.Blocks {
+			for _, ins := range b.Instrs {
+				call, ok := ins.(*ssa.Call)
+				if !ok {
+					continue
+				}
+				bi, ok := call.Call.Value.(*ssa.Builtin)
+				if !ok || bi.Name() != "delete" {
+					continue
+				}
+				nDel++
+				// edges After(now, exp)==true with exp a value of the same map
+				var after []Edge
+				for _, bb := range f.Blocks {
+					for i := range bb.Succs {
+						a, ok := edgeAtom(Edge{bb, i})
+						if !ok || !isBoolTrue(a.Y) || a.Op != token.EQL {
+							continue
+						}
+						cc, ok := a.X.(*ssa.Call)
+						if !ok || len(cc.Call.Args) != 2 {
+							continue
+						}
+						if calleeIs(cc, "time", "Time", "After") && fromMapValue(cc.Call.Args[1]) && sameMapEntry(cc.Call.Args[1], call.Call.Args[1]) {
+							after = append(after, Edge{bb, i})
+						}
+						if calleeIs(cc, "time", "Time", "Before") && fromMapValue(cc.Call.Args[0]) && sameMapEntry(cc.Call.Args[0], call.Call.Args[1]) {
+							after = append(after, Edge{bb, i})
+						}
+					}
+				}
+				start := f.Blocks[0]
+				if h := loopHeaderOf(call.Block()); h != nil {
+					start = h
+				}
+				av := EdgeSet{}
+				av.addAll(after)
+				_, reached := reach([]*ssa.BasicBlock{start}, av, nil)[call.Block()]
+				c.Check(len(after) > 0 && !reached, "C09.R1", fmt.Sprintf("ingress.%s:removal#%d only strictly after that entry's expiry", FuncName(f), nDel), p.InstrPos(call),
+					"the delete is reachable only through now.After(expiry of the deleted key)",
+					"an entry can be removed from the nonce cache while it is still live (not behind now.After(its expiry)): a captured request is accepted again within the tolerance window")
+			}
+		}
+	}
 	// same clock reading + expiry = t + tolerance
 	sameClock := false
 	if sub, ok := durVal.(*ssa.Call); ok && calleeIs(sub, "time", "Time", "Sub") {
@@ -389,4 +440,21 @@ func checkNonceSurvivesReload(c *Ctx, rule string) {
 		}
 	}
 	c.Floor(rule, "authenticator_installations_on_reload_path", n, 1)
+}
+
+// sameMapEntry: exp is the value of the range/lookup entry whose key is key (same Next tuple or same lookup index).
+func sameMapEntry(exp, key ssa.Value) bool {
+	ex, ok := exp.(*ssa.Extract)
+	if ok {
+		if kx, ok := key.(*ssa.Extract); ok && kx.Tuple == ex.Tuple {
+			return true // k, v of the same range step
+		}
+		if lk, ok := ex.Tuple.(*ssa.Lookup); ok && lk.Index == key {
+			return true
+		}
+	}
+	if lk, ok := exp.(*ssa.Lookup); ok && lk.Index == key {
+		return true
+	}
+	return false
 }
